@@ -219,6 +219,8 @@ class Engine(object):
         if isinstance(e.op, ast.USub):
             if isinstance(v, (ArrV, LazyArr)):
                 return LazyArr(v.n, lambda k, v=v: neg(st.elem(v, k)))
+            if isinstance(v, float) and abs(v) == float('inf'):
+                return -v
             return neg(v)
         if isinstance(e.op, ast.UAdd):
             return v
@@ -382,6 +384,8 @@ class Engine(object):
 
     def ev_Attribute(self, e, st, pc):
         full = ast.unparse(e)
+        if full in ('np.inf', 'numpy.inf', 'math.inf'):
+            return float('inf')           # only as the neutral element of min / max (bi_min / bi_max); any arithmetic on it is unsupported
         if full in self.call_models or full.startswith('np.') or full.startswith('collections.'):
             return ('__name__', full)
         v = self.ev(e.value, st, pc)
@@ -780,11 +784,22 @@ class Engine(object):
             r = f(r, a)
         return r
 
+    @staticmethod
+    def _drop_inf(args, sign):
+        if len(args) == 1 and isinstance(args[0], (list, tuple)):
+            args = list(args[0])
+        keep = [a for a in args if not (isinstance(a, float) and a == sign * float('inf'))]
+        if any(isinstance(a, float) and abs(a) == float('inf') for a in keep):
+            raise Unsupported("min / max with an infinity that is not its neutral element")
+        if not keep:
+            raise Unsupported("min / max of infinities only")
+        return keep
+
     def bi_max(self, args, kw, st, pc, node):
-        return self._fold(rmax, args)
+        return self._fold(rmax, self._drop_inf(args, -1))
 
     def bi_min(self, args, kw, st, pc, node):
-        return self._fold(rmin, args)
+        return self._fold(rmin, self._drop_inf(args, +1))
     bi_fmax = bi_max
     bi_fmin = bi_min
 
@@ -973,6 +988,27 @@ class Engine(object):
     def bi_np_sort(self, args, kw, st, pc, node):
         vals = self.sorted_values(self._elems(args[0], st), pc, node, unique=False)
         return st.alloc(vals, len(vals), "sort@%d" % node.lineno)
+
+    def bi_np_intersect1d(self, args, kw, st, pc, node):
+        """assumed numpy contract: sorted distinct values present in both arrays; with return_indices=True also the index of
+        the FIRST occurrence of each of them in either array (bounded mode: equalities decided by the path condition or forked)"""
+        if self.mode != 'B':
+            raise Unsupported("np.intersect1d in P mode")
+        a, b = self._elems(args[0], st, pc), self._elems(args[1], st, pc)
+        ua = self.sorted_values(list(a), pc, node, unique=True)
+        eq = lambda x, y: self.demand_bool(cmp('==', x, y), pc)
+        common, ia, ib = [], [], []
+        for v in ua:
+            jb = next((j for j, w in enumerate(b) if eq(v, w)), None)
+            if jb is None:
+                continue
+            common.append(v)
+            ia.append(next(i for i, w in enumerate(a) if eq(v, w)))
+            ib.append(jb)
+        out = st.alloc(common, len(common), "intersect1d@%d" % node.lineno)
+        if kw.get('return_indices'):
+            return (out, st.alloc(ia, len(ia), "intersect1d.ia@%d" % node.lineno), st.alloc(ib, len(ib), "intersect1d.ib@%d" % node.lineno))
+        return out
 
     def bi_np_concatenate(self, args, kw, st, pc, node):
         vals = []
